@@ -568,6 +568,10 @@ def parse_cache_answer(op, s):
         return dict(kind=k, cnt=_ints(p[2]))
     if k in ("CRD", "CRW"):
         return dict(kind=k, cnt=_ints(p[2]), items=parse_items(p[4:]))
+    if k == "DY":
+        # DY <result> <n> <items...> M <mtime seconds>
+        m = p.index("M") if "M" in p else len(p)
+        return dict(kind=k, result=p[1], cnt=[], items=parse_items(p[3:m]), mtime=int(p[m + 1]) if m + 1 < len(p) else -1)
     return dict(kind="ERR", what=s[:40])
 
 
@@ -689,6 +693,14 @@ def run_cache_cases(cases, scratch, timeout=900, per_cmd=15):
                         next_lb = a["res"][0] if a["res"] else None
                     if o[0] == "CSB":
                         next_sb = a["res"][0] if a["res"] else None
+                if any(o_[0] == "DY" for o_ in cops) and ans and ans[-1].get("kind") == "DY":
+                    # the oracle with the filler year (find_sysline, year None) on every dated line
+                    fill = {}
+                    for l_ in sorted(tab):
+                        r = ask("T\t" + l_.hex()).split("\t")[1]
+                        if r not in ("None", "PANIC"):
+                            fill[l_] = int(r)
+                    ans[-1]["filler"] = fill
                 for c in sorted(oracle_candidates(f, cops)):
                     if c not in tab and len(c) >= 2:
                         r = ask("T\t" + c.hex()).split("\t")[1]
@@ -752,8 +764,39 @@ def py_win_scan(gs, a, b):
     return out
 
 
+def yearless_tables(table, years):
+    """table: line bytes -> (month, day, h, m, s); -> {year: {line: unix seconds}}"""
+    import calendar
+    return {y: {l: calendar.timegm((y, mo, d, h, mi, se, 0, 0, 0)) for l, (mo, d, h, mi, se) in table.items()} for y in years}
+
+
+def py_assign_years(msgs, year, tol=90000):
+    """coq/Model/Year.v assign_years (instants in seconds): msgs = [(month, day, h, m, s)] in file order ->
+    [(year, instant)]"""
+    import calendar
+    out, prev = [], None
+    for (mo, d, h, mi, se) in reversed(msgs):
+        while True:
+            t = calendar.timegm((year, mo, d, h, mi, se, 0, 0, 0))
+            if prev is not None and prev < t and t - prev > tol:
+                year -= 1
+                continue
+            break
+        out.append((year, t)); prev = t
+    return list(reversed(out))
+
+
 def coq_iop(o, a):
     k = o[0]
+    if k == "DY":
+        _, wa, wb = (o[1].split(",") + ["-", "-"])[:3]
+        oz = lambda v: "None" if v in ("-", "") else "(Some %s%%Z)" % v
+        tabs = "[%s]" % "; ".join("(%d%%Z, %s)" % (y, coq_table(t)) for y, t in sorted(o[2].items()))
+        year = o[3]
+        if a["kind"] == "PANIC":
+            return "IRY %s %d%%Z %s %s [true] None" % (tabs, year, oz(wa), oz(wb))
+        return "IRY %s %d%%Z %s %s [true] (Some [%s])" % (tabs, year, oz(wa), oz(wb),
+                                                     "; ".join('(%d, %d, %d, %d%%Z, "%s")' % it for it in a["items"]))
     if k == "CRW":
         wa, wb, plan = window_spec(o)
         oz = lambda v: "None" if v is None else "(Some %d%%Z)" % v
